@@ -474,23 +474,24 @@ theorem shared_feature_list_loses_features_witness :
 /-! ## 7. the input is never touched, whatever the output is called -/
 
 /-- **for every output name** (no suffix, other suffix, any number of dots, same stem, same
-    directory, …) and every set of existing files: no input file that ends in `.rtdc`/`.tdms`
-    (anything but `.rtdc~`) is among the unlinked paths, the temporary file or the output -/
+    directory, …), **every input name** (including inputs that carry the temporary suffix
+    `.rtdc~`, possible with `check_suffix=False` — finding F64) and every set of existing files: no
+    input file is among the unlinked paths, the temporary file or the output -/
 theorem setup_never_touches_input (ins : List Path) (out : Path) (ex : Path → Bool)
     (tp : TaskPaths) (h : setupPaths ins out ex = some tp) :
-    ∀ i, i ∈ ins → i.parts.getLast? ≠ some "rtdc~" →
-      i ∉ tp.unlinked ∧ i ≠ tp.temp ∧ i ≠ tp.out := by
-  intro i hi hlast
+    ∀ i, i ∈ ins → i ∉ tp.unlinked ∧ i ≠ tp.temp ∧ i ≠ tp.out := by
+  intro i hi
   unfold setupPaths at h
   simp only at h
   split at h
   · cases h
   · rename_i hnot
     cases h
+    simp only [Bool.or_eq_true, not_or, List.contains_iff_mem] at hnot
     have h1 : i ≠ correctedOut out := by
-      intro e; apply hnot; rw [← e, List.contains_iff_mem]; exact hi
+      intro e; exact hnot.1 (e ▸ hi)
     have h2 : i ≠ tempOf (correctedOut out) := by
-      intro e; apply hlast; rw [e]; simp [tempOf]
+      intro e; exact hnot.2 (e ▸ hi)
     refine ⟨?_, h2, h1⟩
     simp only [List.mem_append]
     rintro (h | h)
@@ -500,6 +501,21 @@ theorem setup_never_touches_input (ins : List Path) (out : Path) (ex : Path → 
     · split at h
       · simp only [List.mem_singleton] at h; exact h2 h
       · cases h
+
+/-- an output whose temporary path `<out>.rtdc~` is one of the inputs is refused (F64) -/
+theorem setup_refuses_input_as_temp (ins : List Path) (out : Path) (ex : Path → Bool)
+    (h : tempOf (correctedOut out) ∈ ins) : setupPaths ins out ex = none := by
+  simp [setupPaths, h]
+
+/-- F64 (repaired): with only the F29 comparison, input `x.rtdc~` and output `x.rtdc` make the
+    helper unlink the input (its temporary path *is* the input); the repaired helper refuses.
+    This is the point the hypothesis `i.parts.getLast? ≠ some "rtdc~"` of the earlier version of
+    `setup_never_touches_input` excluded. -/
+theorem f64_temp_unlinks_input_witness :
+    (∃ tp, setupPathsF29 [⟨[], ["x", "rtdc~"]⟩] ⟨[], ["x", "rtdc"]⟩ (fun _ => true) = some tp ∧
+      (⟨[], ["x", "rtdc~"]⟩ : Path) ∈ tp.unlinked) ∧
+    setupPaths [⟨[], ["x", "rtdc~"]⟩] ⟨[], ["x", "rtdc"]⟩ (fun _ => true) = none := by
+  decide
 
 /-- an output that (after the suffix correction) is one of the inputs is refused -/
 theorem setup_refuses_input_as_output (ins : List Path) (out : Path) (ex : Path → Bool)
